@@ -223,6 +223,12 @@ def validatedOf (s : PState) : Validated :=
 end Ctrmml.Player
 
 namespace Ctrmml.Player
+/-- `get_stack_type() == Player_Stack::LOOP` -/
+def topIsLoop (st : List Frame) : Bool :=
+  match st with
+  | f :: _ => f.type == .loop
+  | [] => false
+
 /-- the stack as `event_hook()` sees it: `JUMP` calls the hook before pushing, every other
 event after its stack update -/
 def hookStack (c c' : Core) (o : Out) : List Frame :=
@@ -237,6 +243,8 @@ structure TraceItem where
   off : Nat
   insideLoop : Bool
   insideJump : Bool
+  /-- `get_stack_type() == Player_Stack::LOOP` as the hook sees it -/
+  topLoop : Bool := false
   deriving Repr
 
 /-- A `JUMP` to an existing track calls `event_hook()` *before* the push that may overflow:
@@ -245,7 +253,8 @@ def hookBeforeError (song : Song) (root : List Event) (s : PState) : Option Trac
   let e := fetch (codeOf song root s.core.track) s.core.position
   if e.kind = .jump ∧ (song.track? (trackIdOfParam e.param)).isSome then
     some { ev := e, on := e.on, off := e.off,
-           insideLoop := insideLoop s.core.stack, insideJump := insideJump s.core.stack }
+           insideLoop := insideLoop s.core.stack, insideJump := insideJump s.core.stack,
+           topLoop := topIsLoop s.core.stack }
   else none
 
 /-- `step_event` + the hook's view; `none` for steps that call no hook, `some none` = end hook;
@@ -259,7 +268,8 @@ def stepTrace (song : Song) (root : List Event) (loopHook : Bool) (s : PState) :
     let st := hookStack s.core c' o
     let t := match em with
       | .event v => some (some { ev := v, on := a'.onTime, off := a'.offTime,
-                                 insideLoop := insideLoop st, insideJump := insideJump st })
+                                 insideLoop := insideLoop st, insideJump := insideJump st,
+                                 topLoop := topIsLoop st })
       | .finish => some none
       | .nothing => none
     .ok ({ core := c'', acc := a' }, t)
